@@ -601,7 +601,10 @@ procedure PEI(p_i, p_m, p_occ, p_src)
   variables p_handled = 0;
 {
 P0: if (Blocked(p_i, p_m, p_occ.t)) {
-       ret := 1;
+       \* a blocked machine swallows the event (reports it handled); back / back11 report a forwarded completion event as not handled,
+       \* otherwise the enclosing machine would look for completion transitions for ever (repair F16)
+       ret := IF IsB /\ p_occ.t = "none" THEN 0 ELSE 1;
+       obs := Append(obs, [k |-> "blk", i |-> p_i, m |-> p_m, id |-> "", e |-> p_occ.t, p |-> p_occ.p, r |-> TRUE, x |-> 0]);
        if (p_occ.t # "none") { dropped[p_i] := dropped[p_i] \cup {p_occ.p}; };
        return; };
 P1: if (IsB) {
